@@ -11,7 +11,7 @@
 From Coq Require Import List NArith Bool Arith.
 From Verif.Common Require Import Cas.
 From Verif.C19 Require Import Model.
-From Verif.C22 Require Import Model RG Sys Witness Final.
+From Verif.C22 Require Import Model RG Sys Witness Final Must Final2.
 Import ListNotations.
 Open Scope N_scope.
 
@@ -75,3 +75,40 @@ Theorem c22_one_confirmed_owner_same_host_refuted :
     h1 <> h2 /\ aff_at s h1 c = Some AConfirmed /\ aff_at s h2 c = Some AConfirmed.
 Proof. exact same_host_refuted. Qed.
 Print Assumptions c22_one_confirmed_owner_same_host_refuted.
+
+(* ------------------------------------------------------------------------------------------------------------
+   SAME-HOST CONCURRENCY, repaired code (fx = true): NO hypothesis on the hosts.  Any number of processes may act
+   for one host at the same time (the CNI plugin's IPAM client, kube-controllers releasing unused blocks, ...),
+   interleaved with other hosts, with conflicts and crash/restart.  Proof: RG2.v (guarantee GP = G + two facts that
+   order affinity and block revisions: the claim path re-writes the block AFTER it obtained the affinity revision
+   and BEFORE it confirms, the release path marks the affinity AFTER it read the block), Prims2.v, Proofs2.v, Sys2.v. *)
+Theorem c22_block_affinity_matches_claim_same_host : forall cf clients evs h c,
+  aff_at (sy_store (sys_run cf true (sys0 cf true clients) evs)) h c = Some AConfirmed ->
+  exists b, blk_at (sy_store (sys_run cf true (sys0 cf true clients) evs)) c = Some b /\ bk_aff b = Some h.
+Proof. exact confirmed_matches_block_same_host. Qed.
+Print Assumptions c22_block_affinity_matches_claim_same_host.
+
+Theorem c22_one_confirmed_owner_same_host : forall cf clients evs h1 h2 c,
+  aff_at (sy_store (sys_run cf true (sys0 cf true clients) evs)) h1 c = Some AConfirmed ->
+  aff_at (sy_store (sys_run cf true (sys0 cf true clients) evs)) h2 c = Some AConfirmed -> h1 = h2.
+Proof. exact one_confirmed_owner_same_host. Qed.
+Print Assumptions c22_one_confirmed_owner_same_host.
+
+(* A mustBeEmpty release never rewrites a block: whatever the datastore answers (hence under every interleaving,
+   conflict and same-host process), ReleaseAffinity(c, mustBeEmpty) and ReleaseHostAffinities(mustBeEmpty) never issue
+   a Create or an Update of a block key; their only block write is the compare-and-delete of the block they read. *)
+Theorem c22_must_be_empty_release_never_rewrites_block : forall cf fx h o,
+  (exists c, o = ORelease c true) \/ o = OReleaseHost true ->
+  never_rewrites_block (compile22 cf fx h o).
+Proof. exact must_release_never_rewrites. Qed.
+Print Assumptions c22_must_be_empty_release_never_rewrites_block.
+
+(* "A block that names host h has an affinity object (h, c)" is in the oracle for cases whose clients act for distinct
+   hosts; it is NOT a theorem here (see the report: it needs a third assertion "block c does not name h" threaded
+   through Prims.v/Proofs.v), and it is false under same-host concurrency: *)
+Theorem c22_named_block_has_affinity_same_host_refuted :
+  exists (cf : config) (fx : bool) (clients : list (N * list op22)) (evs : list event) (h c : N) (b : block),
+    let s := sy_store (sys_run cf fx (sys0 cf fx clients) evs) in
+    blk_at s c = Some b /\ bk_aff b = Some h /\ aff_at s h c = None.
+Proof. exact named_block_without_affinity_same_host. Qed.
+Print Assumptions c22_named_block_has_affinity_same_host_refuted.
